@@ -1,6 +1,7 @@
 import PrimaiteModel.Model.Route
 import PrimaiteModel.Model.Forward
 import PrimaiteModel.Props.C08Addressee
+import PrimaiteModel.Props.C08Termination
 open Primaite Primaite.Route Primaite.Forward
 
 structure D where
@@ -8,6 +9,10 @@ structure D where
   net : St := {}
 
 def fuelMax : Nat := 200000
+
+/-- the driver's budget is above the proved bound: by `C08_handling_terminates` no run from a state that passes `goodstate`
+ever reports OOF, and what it computes does not depend on `fuelMax`. -/
+example : fuelBound ≤ fuelMax := by decide
 
 def showRoute (r : Route) : String := s!"{showIp r.addr} {showIp r.mask} {showIp r.nextHop} {r.metric}"
 
@@ -94,9 +99,18 @@ def step (d : D) : List String → D × String
   | ["ping", n, ip, cnt] =>
     match n.toNat?, parseIp ip, cnt.toNat? with
     | some n, some ip, some cnt =>
-      let (st, ok) := ping fuelMax d.net n ip cnt
+      let (st, ok) := runOp fuelMax d.net (.ping n ip cnt)
       let (st, evs) := flush st
       ({ d with net := st }, s!"{showBool ok} {evs}")
+    | _, _, _ => (d, "bad-op")
+  | ["needfuel", n, ip, cnt] =>
+    -- the smallest budget of a fixed ladder with which this ping would finish (the state is NOT changed); `none` = not even
+    -- with `fuelBound` (impossible from a state that passes the configuration check: `C08_operation_terminates`)
+    match n.toNat?, parseIp ip, cnt.toNat? with
+    | some n, some ip, some cnt =>
+      let ladder := [32, 64, 128, 256, 512, 1024, fuelBound]
+      let ok := ladder.find? (fun k => !(runOp k { d.net with oof := false } (.ping n ip cnt)).1.oof)
+      (d, match ok with | some k => s!"{k}" | none => "none")
     | _, _, _ => (d, "bad-op")
   | ["setflag", n] =>
     match n.toNat? with
@@ -114,30 +128,30 @@ def step (d : D) : List String → D × String
   | ["power", n, on] =>
     match n.toNat?, parseBool on with
     | some n, some true =>
-      let (st, evs) := flush (powerOn fuelMax d.net n)
+      let (st, evs) := flush (runOp fuelMax d.net (.power n true)).1
       ({ d with net := st }, s!"ok {evs}")
-    | some n, some false => ({ d with net := powerOff d.net n }, "ok")
+    | some n, some false => ({ d with net := (runOp fuelMax d.net (.power n false)).1 }, "ok")
     | _, _ => (d, "bad-op")
   | ["service", n, ip] =>
     match n.toNat?, parseIp ip with
     | some n, some ip =>
-      let (st, ok) := requestService fuelMax d.net n ip
+      let (st, ok) := runOp fuelMax d.net (.service n ip)
       let (st, evs) := flush st
       ({ d with net := st }, s!"{showBool ok} {evs}")
     | _, _ => (d, "bad-op")
   | ["enable", n, i] =>
     match n.toNat?, i.toNat? with
     | some n, some i =>
-      let (st, evs) := flush (enableIface fuelMax d.net n i)
+      let (st, evs) := flush (runOp fuelMax d.net (.enable n i)).1
       ({ d with net := st }, s!"ok {evs}")
     | _, _ => (d, "bad-op")
   | ["disable", n, i] =>
     match n.toNat?, i.toNat? with
-    | some n, some i => ({ d with net := disableIface d.net n i }, "ok")
+    | some n, some i => ({ d with net := (runOp fuelMax d.net (.disable n i)).1 }, "ok")
     | _, _ => (d, "bad-op")
   | ["arpclear", n] =>
     match n.toNat? with
-    | some n => ({ d with net := d.net.modNode n (fun nd => { nd with arp := [] }) }, "ok")
+    | some n => ({ d with net := (runOp fuelMax d.net (.arpclear n)).1 }, "ok")
     | none => (d, "bad-op")
   | ["goodstate"] => (d, showBool (goodStateB d.net))
   | ["dumparp", n] =>
